@@ -18,6 +18,17 @@ CHECKS.update({
              text="Metamorphic generated-input search: three transformations that must not change an instantiation; both sides come from gtwrap, so no reference spelling is needed. Cannot show absence.",
              note="Trusted: the model transformations in checks/c13.py and vlib.model.rename_param (scoping of member-level parameters).", ref="3/C13"),
 })
+CHECKS.update({
+ 'C07': dict(tech="Hypothesis token-level corruption of generated files + accept=>token-accounting round trip, must-reject cases for explicit validation rules, fault-injection style end-to-end runs of both generators and scripts against pre-seeded output",
+             text="Generated-input search: 1k/24k corrupted files; an accepted input must have every primitive token accounted for in the tree and re-parse to itself; inputs violating an explicit validation rule must be rejected; a failing generator/script run must leave a pre-seeded output location byte-identical. Cannot show absence; termination is observed with a 300 s guard only.",
+             note="Trusted: vlib.reader.lex (primitive lexer), the two normalisations (std::pair, enum class) applied to both sides, vlib.project/render. atheris byte-level fuzzing is not part of the registered commands.", ref="3/C07"),
+ 'C12': dict(tech="Hypothesis metamorphic testing over layouts: per-gap fillers (whitespace, hostile C/C++ comments, abutting tokens); equality of parse projection and byte-identical generator outputs",
+             text="Metamorphic generated-input search: compact, one-space and drawn layouts of one token stream must parse alike and generate byte-identical pybind/MATLAB output.",
+             note="Trusted: the token boundaries of vlib.render (single tokens listed in the evidence assumptions), fix_gap's legality rules.", ref="3/C12"),
+ 'C19': dict(tech="Hypothesis-generated scaled input families + deterministic operation counter (uncached pyparsing match attempts) with growth-ratio and absolute bounds; counter cap cuts exponential runs",
+             text="Generated-input search with a deterministic cost oracle: growth under doubling <= 8 (cubic) and steps <= 150*len*(1+depth) for namespace depth, template depth, mixed and size families built from random seeds. Samples finitely many sizes (<=16/32 deep, <=40/80 declarations).",
+             note="Trusted: the counter wrapper around ParserElement._parseNoCache installed by the harness process (no repo hook). Wall-clock is recorded, never decides.", ref="3/C19"),
+})
 PENDING = {}
 
 def main():
